@@ -730,7 +730,9 @@ impl View for ViewCached {
         layout: ViewLayout<'_>,
     ) -> Result<(), Error> {
         if let Some(view) = layout.data::<ArcView<'static>>() {
-            view.render(ctx, surf, layout.view())?;
+            let surf = layout.apply_to(surf);
+            let child_layout = layout.children().next().ok_or(Error::InvalidLayout)?;
+            view.render(ctx, surf, child_layout)?;
         }
         Ok(())
     }
@@ -742,8 +744,13 @@ impl View for ViewCached {
         mut layout: ViewMutLayout<'_>,
     ) -> Result<(), Error> {
         if let Some(view) = self.cache.as_ref().and_then(|c| c.get(self.uid)) {
-            view.layout(ctx, ct, layout.view_mut())?;
-            layout.set_data(view);
+            // NOTE: cached view is laid out in its own node, otherwise its layout data
+            //       would be overwritten by the data of this view
+            let mut layout_child = layout.push_default();
+            view.layout(ctx, ct, layout_child.view_mut())?;
+            *layout = Layout::new()
+                .with_size(layout_child.size())
+                .with_data(view);
         }
         Ok(())
     }
